@@ -52,6 +52,9 @@ func (C06) Gen(rng *core.Rng, tier string, idx int) *core.Scenario {
 	if rng.Chance(0.12) { // an offset longer than a segment (and possibly than what is left of the period)
 		cfg.Ato = core.Pick(rng, []string{"3", "7", "10", "25"})
 	}
+	if rng.Chance(0.05) { // negative offset: segments announced later than their end
+		cfg.Ato = core.Pick(rng, []string{"-0.5", "-1", "-3"})
+	}
 	if rng.Chance(0.15) {
 		cfg.Snr = pint(core.Pick(rng, []int{1, 7, 100, 1000}))
 	}
@@ -235,7 +238,9 @@ func (C06) Run(t *testing.T, sc *core.Scenario, res *core.Result) {
 		// Period@start counts from availabilityStartTime; with an availabilityTimeOffset the newest segments start up to
 		// ato after now, so the newest Period is the one that contains now+ato
 		nowS := float64(now-cm.ASTms)/1000 + cfg.AtoS()
-		if !(last.StartS <= nowS+1e-9 && nowS < last.StartS+float64(pdS)+1e-9) {
+		current := func(x float64) bool { return last.StartS <= x+1e-9 && x < last.StartS+float64(pdS)+1e-9 }
+		// (a negative offset: the Period that contains the wall-clock now may be listed before its first segment is available)
+		if !(current(nowS) || (cfg.AtoS() < 0 && current(float64(now-cm.ASTms)/1000))) {
 			res.Violate("C06.periods-tile", merge(feat, core.Sig("kind", "last-period-not-current")), "last Period starts %.3f, now %.3f, period %d s", last.StartS, nowS, pdS)
 		}
 		firstStart := cm.Periods[0].StartS
